@@ -50,6 +50,8 @@ type pkgInfo struct {
 }
 
 type translator struct {
+	// statements of ValidateNodeGroup that could not be translated (the rest is still emitted: see partialError)
+	untranslated []string
 	repo   string
 	module string
 	fset   *token.FileSet
@@ -1155,24 +1157,41 @@ func (t *translator) rules() ([]rule, error) {
 	}
 	var out []rule
 	var walk func(stmts []ast.Stmt, guards []val, e *env) error
+	// skipRule records a statement that is outside the grammar.  A rule that cannot be translated is emitted as
+	// `true` (the weakest reading: as if the rule were absent), so everything that depends on it — the soundness
+	// proof first of all — is re-checked without it; the run is still reported as a failed translation.
+	skipRule := func(err error, src, msg string, isRule bool) {
+		t.untranslated = append(t.untranslated, err.Error())
+		if isRule {
+			out = append(out, rule{coq: "true", src: "UNTRANSLATED: " + src, msg: msg})
+		}
+	}
 	walk = func(stmts []ast.Stmt, guards []val, e *env) error {
 		for _, s := range stmts {
 			switch s := s.(type) {
 			case *ast.ExprStmt:
 				call, ok := s.X.(*ast.CallExpr)
 				if !ok {
-					return t.errAt(s, "statement outside the rule grammar")
+					skipRule(t.errAt(s, "statement outside the rule grammar"), t.src(s), "", false)
+					continue
 				}
 				id, ok := call.Fun.(*ast.Ident)
 				if !ok || id.Name != check || len(call.Args) < 2 {
-					return t.errAt(s, "statement outside the rule grammar (only %s(cond, format, …) calls are rules)", check)
+					skipRule(t.errAt(s, "statement outside the rule grammar (only %s(cond, format, …) calls are rules)", check), t.src(s), "", false)
+					continue
+				}
+				msg := ""
+				if bl, ok := call.Args[1].(*ast.BasicLit); ok && bl.Kind == token.STRING {
+					msg, _ = strconv.Unquote(bl.Value)
 				}
 				c, err := t.trExpr(call.Args[0], e)
 				if err != nil {
-					return err
+					skipRule(err, t.src(call.Args[0]), msg, true)
+					continue
 				}
 				if c.k != kBool {
-					return t.errAt(call.Args[0], "rule condition is a %v", c.k)
+					skipRule(t.errAt(call.Args[0], "rule condition is a %v", c.k), t.src(call.Args[0]), msg, true)
+					continue
 				}
 				src := t.src(call.Args[0])
 				body := c
@@ -1188,18 +1207,16 @@ func (t *translator) rules() ([]rule, error) {
 					body = iteBool(g, c, boolVal(true))
 					src = "if " + strings.Join(gs, " && ") + " { " + src + " }"
 				}
-				msg := ""
-				if bl, ok := call.Args[1].(*ast.BasicLit); ok && bl.Kind == token.STRING {
-					msg, _ = strconv.Unquote(bl.Value)
-				}
 				out = append(out, rule{coq: body.coq, src: src, msg: msg})
 			case *ast.AssignStmt:
 				ne, ok, err := t.localDefine(s, e)
 				if err != nil {
-					return err
+					skipRule(err, t.src(s), "", false)
+					continue
 				}
 				if !ok {
-					return t.errAt(s, "assignment outside the rule grammar")
+					skipRule(t.errAt(s, "assignment outside the rule grammar"), t.src(s), "", false)
+					continue
 				}
 				e = ne
 			case *ast.IfStmt:
@@ -1229,7 +1246,7 @@ func (t *translator) rules() ([]rule, error) {
 					return t.errAt(s, "else-if chain outside the rule grammar")
 				}
 			default:
-				return t.errAt(s, "statement outside the rule grammar")
+				skipRule(t.errAt(s, "statement outside the rule grammar"), t.src(s), "", false)
 			}
 		}
 		return nil
@@ -1449,6 +1466,11 @@ func coqStrList(l []string) (string, error) { return coqStrListSep(l, "; ") }
 func generate(repo, out string) error {
 	text, err := generateText(repo)
 	if err != nil {
+		if _, partial := err.(*partialError); partial {
+			if werr := os.WriteFile(out, []byte(text), 0o644); werr != nil {
+				return werr
+			}
+		}
 		return err
 	}
 	return os.WriteFile(out, []byte(text), 0o644)
@@ -1599,5 +1621,20 @@ func generateText(repo string) (string, error) {
 	fmt.Fprintf(&b, "(* the Go source of each condition and its message, in the same order (for reports) *)\nDefinition gen_rule_src : list string := %s.\n", ss)
 	fmt.Fprintf(&b, "Definition gen_rule_msg : list string := %s.\n", ms)
 	b.WriteString("Definition gen_validate (c : cfg) : bool := forallb (fun r => r c) gen_rules.\n")
+	us, err := coqStrListSep(t.untranslated, ";\n  ")
+	if err != nil {
+		return "", err
+	}
+	fmt.Fprintf(&b, "(* statements of ValidateNodeGroup outside the translator's grammar (each untranslatable rule is emitted as `true`) *)\nDefinition gen_untranslated : list string := %s.\n", us)
+	if len(t.untranslated) > 0 {
+		return b.String(), &partialError{msgs: t.untranslated}
+	}
 	return b.String(), nil
+}
+
+// partialError: the file was produced, but some statements of ValidateNodeGroup could not be translated.
+type partialError struct{ msgs []string }
+
+func (p *partialError) Error() string {
+	return "translation incomplete (rules outside the grammar are emitted as `true`):\n  " + strings.Join(p.msgs, "\n  ")
 }
